@@ -1927,13 +1927,13 @@ PROPERTIES = {
             "its whole text, ws_len, the original newline/space counters, the text preceding a token in the lexer, LexState.is_first — equals the reviewed set: whitespace-to-counts "
             "reduction, the two comment classifiers (first-on-line), asm line breaks, the clamp(1,2) on the first token of a solved line, max_one_either_side (0-vs-some), the "
             "length table, emission, cursor code; every decision of a solved line overwrites newlines/indentation/continuation; (c) the spacing table decides every gap: for every (previous kind, next kind) pair either `after` of the first or `before` of the second is set (Comment(InlineLine) exempt: always followed by a line break). Not decided: lines without a solution keep input "
-            "counters; that the allowed readers pass no more than the allowed fact. Added in round 6: (i) closed reviewed inventory of the sites that construct a FormattingSolutionError (every give-up site lets the input's line breaks reach the output).", []),
+            "counters; that the allowed readers pass no more than the allowed fact. Added in round 6: (i) closed reviewed inventory of the sites that construct a FormattingSolutionError (every give-up site lets the input's line breaks reach the output). Added in round 7: (j) the directive consolidator hands its list of merged directives to the caller only together with the replacement of the line's token list.", []),
     "C08": (check_c08,
             "Structural clauses of C08: (a) emission order newlines < indentation < continuation < spaces < content with each counter paired with its string; (b) the only writers of "
             "the four counters are the spacing table, the wrapper and the Eof rule; values stored to newlines_before are 0, 1 or clamp(old,1,2); values stored to spaces_before are "
             "0, 1 or come from the spacing table, whose every Some(u16) is 0, 1 or min(old,1); (c) spaces before every line-starting token are zeroed after wrapping; (d) the Eof "
             "rule stores (1,0,0,0) on the last token, is selected exactly for Eof lines, which the wrapper skips; (e) indentation strings are repeat(one blank char, width). "
-            "Not decided: tokens of lines for which no wrapping was found keep the input's counters. Added in round 6: (g) blank definition shared with C13.b plus maximal munch of the blank scanner (it returns only where the next character is evidently not blank); (h) the toggle scan marks an On comment iff a region was open (shared with C07.f).", []),
+            "Not decided: tokens of lines for which no wrapping was found keep the input's counters. Added in round 6: (g) blank definition shared with C13.b plus maximal munch of the blank scanner (it returns only where the next character is evidently not blank); (h) the toggle scan marks an On comment iff a region was open (shared with C07.f). Added in round 7: (i) = C06.j.", []),
     "C09": (check_c09,
             "Structural clauses of C09: (a) the only CR/LF text that can reach the output comes from ReconstructionSettings::new, which pairs Crlf with \"\\r\\n\" and Lf with \"\\n\"; "
             "the settings are immutable and constructed only there; no other CR/LF literal is appended to any string (all other uses are patterns or log text); (b) the newline "
@@ -1947,5 +1947,5 @@ PROPERTIES = {
             "continuation string (try_rewrite_string included); emitters only append the configured strings (measuring tolerated as a capacity hint), the string fields are read only by their getters; the strings are repeat(' ' | '\\t', width). Not decided: the relation between two runs.", []),
     "C11": (check_c11,
             "Structural clause of C11: wrap_column reaches core only as max_line_length (unchanged), which is used only as the right operand of `length > max` and as the subtrahend "
-            "of the excess `length - max` under that comparison — no equality test, no other arithmetic, no escape; inside the conversion the width has a single use; (c) the measured column does not depend on the configured newline and counts multi-line tokens by their last line. Not decided: the relations between two widths. Added in round 6: (g) every pass that can replace token text is registered before the measuring pass (shared with C03.c).", []),
+            "of the excess `length - max` under that comparison — no equality test, no other arithmetic, no escape; inside the conversion the width has a single use; (c) the measured column does not depend on the configured newline and counts multi-line tokens by their last line. Not decided: the relations between two widths. Added in round 6: (g) every pass that can replace token text is registered before the measuring pass (shared with C03.c). Added in round 7: (h) the key of the child-line memo holds the inputs of the memoised computation unchanged.", []),
 }
